@@ -523,6 +523,52 @@ fn unit_kind(u: &AnyDesignUnit) -> &'static str {
     }
 }
 
+/// Token identity: the keyword a unit / context item starts with, the unit's identifier, and the
+/// kind of the last token of each span, looked up in the unit's OWN token vector.
+fn check_unit_tokens(utoks: &Vec<Token>, unit: &AnyDesignUnit, viol: &mut Vec<String>) {
+    let kind_at = |id: TokenId| utoks.get_token(id).map(|t| t.kind);
+    let expect = |viol: &mut Vec<String>, what: &str, id: TokenId, kinds: &[Kind]| match kind_at(id) {
+        Some(k) if kinds.contains(&k) => {}
+        Some(k) => viol.push(format!(
+            "{}: {:?} of the unit's token vector is `{}`, expected {}",
+            what,
+            id,
+            kind_str(k),
+            kinds.iter().map(|k| format!("`{}`", kind_str(*k))).collect::<Vec<_>>().join(" or ")
+        )),
+        None => viol.push(format!("{}: {:?} is outside the unit's {} tokens", what, id, utoks.len())),
+    };
+    let (start_kw, ident, clause): (Kind, TokenId, &ContextClause) = match unit {
+        AnyDesignUnit::Primary(AnyPrimaryUnit::Entity(u)) => (Kind::Entity, u.ident.tree.token, &u.context_clause),
+        AnyDesignUnit::Primary(AnyPrimaryUnit::Configuration(u)) => (Kind::Configuration, u.ident.tree.token, &u.context_clause),
+        AnyDesignUnit::Primary(AnyPrimaryUnit::Package(u)) => (Kind::Package, u.ident.tree.token, &u.context_clause),
+        AnyDesignUnit::Primary(AnyPrimaryUnit::PackageInstance(u)) => (Kind::Package, u.ident.tree.token, &u.context_clause),
+        AnyDesignUnit::Primary(AnyPrimaryUnit::Context(u)) => (Kind::Context, u.ident.tree.token, &u.items),
+        AnyDesignUnit::Secondary(AnySecondaryUnit::Architecture(u)) => (Kind::Architecture, u.ident.tree.token, &u.context_clause),
+        AnyDesignUnit::Secondary(AnySecondaryUnit::PackageBody(u)) => (Kind::Package, u.ident.tree.token, &u.context_clause),
+    };
+    expect(viol, "first token of the unit's span", unit.get_start_token(), &[start_kw]);
+    expect(viol, "identifier of the unit", ident, &[Kind::Identifier]);
+    if unit.get_end_token() < unit.get_start_token() {
+        viol.push(format!("unit span {:?}..{:?} has start > end", unit.get_start_token(), unit.get_end_token()));
+    }
+    for item in clause.iter() {
+        let (what, kw) = match item {
+            ContextItem::Library(_) => ("library clause of the unit's context clause", Kind::Library),
+            ContextItem::Use(_) => ("use clause of the unit's context clause", Kind::Use),
+            ContextItem::Context(_) => ("context reference of the unit's context clause", Kind::Context),
+        };
+        expect(viol, what, item.get_start_token(), &[kw]);
+        if item.get_end_token() < item.get_start_token() {
+            viol.push(format!("{} has start > end", what));
+        }
+        // a context item lies before the unit's own first token, except inside a context declaration
+        if !matches!(unit, AnyDesignUnit::Primary(AnyPrimaryUnit::Context(_))) && item.get_end_token() >= unit.get_start_token() {
+            viol.push(format!("{} ends at {:?}, not before the unit's first token {:?}", what, item.get_end_token(), unit.get_start_token()));
+        }
+    }
+}
+
 fn panic_msg(e: Box<dyn std::any::Any + Send>) -> String {
     let m = if let Some(s) = e.downcast_ref::<String>() {
         s.clone()
@@ -678,6 +724,11 @@ fn oracle(parser: &VHDLParser, text: &str) -> String {
     let mut touched = 0usize;
     let mut ndecl = 0usize;
     for (k, (utoks, unit)) in design_file.design_units.iter().enumerate() {
+        let before = viol.len();
+        check_unit_tokens(utoks, unit, &mut viol);
+        for v in viol[before..].iter_mut() {
+            *v = format!("unit {} ({}): {}", k, unit_kind(unit), v);
+        }
         let dbg = catch_unwind(AssertUnwindSafe(|| format!("{:?}", unit)));
         match dbg {
             Ok(d) => {
@@ -1217,6 +1268,59 @@ fn gen(seed: u64, tier: &str, out_path: &str) {
         let sep = if r.chance(1, 3) { "" } else { " " };
         let text = format!("{}{}{}", if r.chance(1, 2) { *r.pick(PREFIXES) } else { "" }, w.join(sep), r.pick(SUFFIXES));
         emit("nonlatin", &text);
+    }
+    // 9. the top-level loop resumes: pending context items, a unit that fails exactly at the keyword of
+    //    the next unit or context item, more items, a second failing head, a good unit whose closing ';'
+    //    is kept / typed as ':' / missing, at EOF or before further text
+    {
+        let pre_items = ["", "library l ; ", "library l ; use l . p . all ; ", "context l . c ; library m , n ; "];
+        let failing = [
+            "", "entity ", "entity e ", "entity e is ", "entity e is port ( ", "entity e is end ", "architecture ",
+            "architecture a of ", "architecture a of e is begin process begin ", "package ", "package body ",
+            "package p is constant c : ", "package p is new ", "configuration c of ", "context c is ", "context ",
+            "library ", "use l . ",
+        ];
+        let mid_items = ["", "use l . q . all ; ", "library k ; "];
+        let fail2 = ["", "entity ", "package body ", "architecture a of "];
+        let good = [
+            "entity e is end entity ;", "entity e is end entity e ;", "architecture a of e is begin end architecture a ;",
+            "package p is end package p ;", "package body p is end package body p ;", "package body p is end package body ;",
+            "package i is new g generic map ( x => 1 ) ;", "configuration c of e is for a end for ; end configuration c ;",
+            "context c is library l ; use l . p . all ; end context c ;",
+        ];
+        let endings = [";", ":", ""];
+        let trailers = ["", " entity f is end ;", " library z ;", " :", "\n-- end"];
+        let keep = if scale > 1 { 1 } else { 6 };
+        for p in pre_items.iter() {
+            for f1 in failing.iter() {
+                for m in mid_items.iter() {
+                    for f2 in fail2.iter() {
+                        for g in good.iter() {
+                            for e in endings.iter() {
+                                for t in trailers.iter() {
+                                    if r.below(keep) != 0 {
+                                        continue;
+                                    }
+                                    let body = &g[..g.len() - 1];
+                                    let text = format!("{}{}{}{}{}{}{}", p, f1, m, f2, body, e, t);
+                                    let text = if r.chance(1, 4) { text.replace(" ; ", " ;\n") } else { text };
+                                    emit(if *e == ":" { "colon-end" } else { "resume" }, &text);
+                                }
+                            }
+                        }
+                    }
+                }
+            }
+        }
+        // every top-level catalogue entry with its last ';' typed as ':'
+        for (ctx, body) in CATALOGUE.iter() {
+            if *ctx == 'U' {
+                let b = body.trim_end().trim_end_matches(';');
+                emit("colon-end", &format!("{}:", b));
+                emit("colon-end", &format!("{}: entity f is end ;", b));
+                emit("colon-end", &format!("library l ; {}:\nuse l . p . all ; package q is end :", b));
+            }
+        }
     }
     emit("nonlatin", "x\u{20ac}");
     emit("nonlatin", "entity e is end; -- \u{1F600}\n\u{20ac} entity");
